@@ -115,6 +115,10 @@ package traversal
 //@   before walkAdv assert[C14,C07] forall i mathint :: 0 <= i && i < len(prog.Path.segments) ==> carg0.Path.segments[i] == prog.Path.segments[i]
 //@   before walkAdv assert[C07] carg2 == v && carg3 == sNext && sNext != nil && carg1 == ph
 //@   before loadLink assert[C15] prog.Cfg.LinkVisitOnlyOnce ==> !seen
+//   a link the selector does not explore is not recorded as seen (it may be explored from another path later)
+//@   after Explore let asked = result0
+//@   ensures[C07,C15] defined(asked) && asked == nil ==> forall l datamodel.Link :: indom(prog.SeenLinks, l) == old(indom(prog.SeenLinks, l))
+//@   ensures[C07,C15] !defined(asked) ==> forall l datamodel.Link :: indom(prog.SeenLinks, l) == old(indom(prog.SeenLinks, l))
 //@   before loadLink assert[C14,C07] carg1 == lnk && len(carg0.Path.segments) == len(prog.Path.segments) + 1 && carg0.Path.segments[len(prog.Path.segments)] == ps
 //@   before walkBlock assert[C07] carg2 == sNext && len(carg0.Path.segments) == len(prog.Path.segments) + 1
 
